@@ -8,9 +8,20 @@
 (*           each with the RESIDUAL field values its previous user left    *)
 (*   qcache  Executor.queryCache: query text -> validated document         *)
 (*   apq     extension.AutomaticPersistedQuery.Cache: hash -> text         *)
+(*   cfg     the CONFIGURATION of the transports: the ResponseHeaders map  *)
+(*           each of GET / POST / FORM / GRAPHQL / MULTIPART was built     *)
+(*           with.  It lives as long as the server; a request reads it     *)
+(*           (determineResponseContentType, mergeHeaders, writeHeaders)    *)
+(*           and must never write it.                                      *)
+(*   heap, bfree   response buffers.  The design has none that outlives a  *)
+(*           request (generated Exec marshals into a buffer of its own);   *)
+(*           they exist for the deviation BufPool.                         *)
 (*                                                                         *)
 (* A request in flight goes through the linearization points of the code:  *)
 (*                                                                         *)
+(*   Start     the request arrives; GET.Do / POST.Do first negotiate the   *)
+(*             response media type from the configured headers and the     *)
+(*             request's Accept header and send the merged headers         *)
 (*   Take      pool.Get() - a fresh object (New, or the pool was emptied   *)
 (*             by the GC) or ANY pooled one; then Headers / ReadTime are   *)
 (*             assigned.  Every other transport allocates its parameters.  *)
@@ -23,14 +34,21 @@
 (*             `apq` and may fill in params.Query                          *)
 (*   Parse     parseQuery: queryCache.Get                                  *)
 (*   AddCache  queryCache.Add (valid documents only)                       *)
-(*   Respond   the response, a function of the parameter object's fields   *)
-(*             (the harness' resolvers echo all of them)                   *)
+(*   Execute   the response function of the executable schema runs: the    *)
+(*             result, a function of the parameter object's fields (the    *)
+(*             harness' resolvers echo all of them), is marshalled         *)
+(*   Write     the transport serialises the response.  Between Execute and *)
+(*             Write the response is HELD (response interceptors after     *)
+(*             next(ctx), a slow writer) while other requests execute: the *)
+(*             bytes written must be the bytes this request's own Execute  *)
+(*             computed.                                                   *)
 (*   Finish    the deferred func of POST.Do: reset the fields listed in    *)
 (*             ResetFields, pool.Put                                       *)
 (*                                                                         *)
-(* The code's reset list, the moment of the reset and the cache key are    *)
-(* CONSTANTS so that the negative configurations (MC_HttpState_neg_*.cfg)  *)
-(* show which of them the property really depends on.                      *)
+(* The code's reset list, the moment of the reset, the cache key, whether  *)
+(* mergeHeaders builds a map of its own and whether Exec owns its buffer   *)
+(* are CONSTANTS so that the negative configurations                       *)
+(* (MC_HttpState_neg_*.cfg) show which of them the property depends on.    *)
 (***************************************************************************)
 EXTENDS Naturals, Sequences, FiniteSets, TLC, Json
 
@@ -40,12 +58,17 @@ CONSTANTS
   ResetEarly,   \* TRUE = (deviation) the reset runs before the parameters are used
   CacheKey,     \* "full" = queryCache keyed on the whole text; "prefix" = (deviation) on a prefix
   PoolMax,      \* bound on the bag (sync.Pool may drop objects at any time)
-  Slots         \* number of requests in flight at once
+  Slots,        \* number of requests in flight at once
+  Configs,      \* names of the configurations a server may be constructed with (CfgMap)
+  MergeInPlace, \* TRUE = (deviation) mergeHeaders completes the configured map in place and returns it
+  BufPool,      \* TRUE = (deviation) Exec marshals into a pooled buffer and hands it back while the response aliases it
+  TrackNeg,     \* TRUE = the media type negotiated last is kept (history variable) and exported with the state
+  Once          \* TRUE = every slot serves exactly one request (schedule export, MC_HttpStateHeld)
 
-VARIABLES pool, qcache, apq, fl, act
+VARIABLES pool, qcache, apq, fl, act, cfg, cfg0, neg, heap, bfree
 
-vars == <<pool, qcache, apq, fl, act>>
-view == <<pool, qcache, apq, fl>>
+vars == <<pool, qcache, apq, fl, act, cfg, cfg0, neg, heap, bfree>>
+view == <<pool, qcache, apq, fl, cfg, cfg0, neg, heap, bfree>>
 
 -----------------------------------------------------------------------------
 (* Values *)
@@ -118,12 +141,66 @@ AloneResp(r, q0) ==
      ELSE IF p.q = "" THEN ErrResp("noop")
      ELSE ExecResp(p.q, p)
 
-Shared == [pool |-> pool, qc |-> qcache, apq |-> apq]
+-----------------------------------------------------------------------------
+(* Transport configuration and response headers *)
+
+(* the transports whose ResponseHeaders can be configured; GET and POST
+   negotiate the media type, the others send the configured map as it is *)
+ConfTr == {"GET", "POST", "FORM", "GRAPHQL", "MULTIPART"}
+NegTr  == {"GET", "POST"}
+
+(* configurations: no ResponseHeaders; headers that do not name a
+   Content-Type; headers with an explicit Content-Type ("cj" stands for
+   "application/json; charset=utf-8") *)
+CfgMap(name) ==
+  CASE name = "xsb" -> {<<"X-Served-By", "c07">>, <<"Vary", "Accept">>}
+    [] name = "ct"  -> {<<"Content-Type", "cj">>, <<"X-Served-By", "c07">>}
+    [] OTHER -> {}
+
+HasCT(m) == \E p \in m : p[1] = "Content-Type"
+CTOf(m) == (CHOOSE p \in m : p[1] = "Content-Type")[2]
+
+(* determineResponseContentType on the Accept header: absent => json; the
+   first recognised part decides; "html" has no recognised part, "multi" is
+   "text/html, application/json;q=0.9" *)
+AccCT(acc) == IF acc \in {"-", "json", "multi"} THEN "json" ELSE "gql"
+
+(* media type and header set of the response, given the configured map m *)
+RespCT(r, m) == IF r.tr \notin ConfTr THEN ""
+                ELSE IF HasCT(m) THEN CTOf(m)
+                ELSE IF r.tr \in NegTr THEN AccCT(r.acc) ELSE "json"
+SentHdrs(r, m) == IF r.tr \notin ConfTr THEN {}
+                  ELSE Merge({<<"Content-Type", RespCT(r, m)>>}, m)
+
+(* HTTP status class of the negotiating transports: pre-execution protocol
+   errors (validation, no operation) are 400 for graphql-response+json and
+   422 otherwise; "own" = 200 unless operation selection / variable coercion
+   fail, a function of the request's own parameters either way; "" = not
+   modelled here (Http.tla, C09) *)
+Status(r, out, ct) ==
+  IF r.tr \notin NegTr THEN ""
+  ELSE CASE out = "decodeErr" -> "400"
+         [] out \in {"invalid", "noop"} -> (IF ct = "gql" THEN "400" ELSE "422")
+         [] out \in {"apqNotFound", "apqMismatch"} -> "200"
+         [] OTHER -> "own"
+
+Wire(body, st, hs) == [body |-> body, st |-> st, hs |-> hs]
+
+(* everything the client sees of Response(r alone on a server freshly
+   constructed with configuration c) *)
+AloneWire(r, q0, c) ==
+  LET m == CfgMap(c)
+      b == AloneResp(r, q0)
+  IN Wire(b, Status(r, b.out, RespCT(r, m)), SentHdrs(r, m))
+
+Shared == [pool |-> pool, qc |-> qcache, apq |-> apq, cfg |-> cfg0, neg |-> neg]
+SharedNext == [pool |-> pool', qc |-> qcache', apq |-> apq', cfg |-> cfg0', neg |-> neg']
 
 -----------------------------------------------------------------------------
 (* Actions *)
 
 Idle == [pc |-> "idle"]
+NoNeg == [tr |-> "", ct |-> ""]
 
 Init ==
   /\ pool = <<>>
@@ -131,14 +208,28 @@ Init ==
   /\ apq = {}
   /\ fl = [i \in 1..Slots |-> Idle]
   /\ act = [n |-> "init"]
+  /\ cfg0 \in Configs
+  /\ cfg = [t \in ConfTr |-> CfgMap(cfg0)]
+  /\ neg = NoNeg
+  /\ heap = <<>>
+  /\ bfree = {}
 
+(* the request arrives; GET.Do / POST.Do: determineResponseContentType,
+   mergeHeaders, writeHeaders - the configuration is only read *)
 Start(i, r) ==
   /\ fl[i].pc = "idle"
-  /\ fl' = [fl EXCEPT ![i] = [pc |-> "take", r |-> r, obj |-> Zero, pooled |-> FALSE, seen |-> Params(Zero),
-                               apqhit |-> "", hit |-> FALSE, resp |-> ErrResp(""),
-                               s0 |-> IF Slots = 1 THEN Shared ELSE [pool |-> <<>>, qc |-> {}, apq |-> {}]]]
+  /\ LET m  == IF r.tr \in ConfTr THEN cfg[r.tr] ELSE {}
+         ct == RespCT(r, m)
+         hs == SentHdrs(r, m)
+     IN /\ fl' = [fl EXCEPT ![i] = [pc |-> "take", r |-> r, obj |-> Zero, pooled |-> FALSE, seen |-> Params(Zero),
+                                     apqhit |-> "", hit |-> FALSE, resp |-> ErrResp(""),
+                                     ct |-> ct, hs |-> hs, buf |-> 0, wire |-> Wire(ErrResp(""), "", {}),
+                                     s0 |-> IF Slots = 1 THEN Shared
+                                            ELSE [pool |-> <<>>, qc |-> {}, apq |-> {}, cfg |-> "", neg |-> NoNeg]]]
+        /\ cfg' = IF MergeInPlace /\ r.tr \in NegTr /\ m # {} THEN [cfg EXCEPT ![r.tr] = hs] ELSE cfg
+        /\ neg' = IF TrackNeg /\ r.tr \in NegTr THEN [tr |-> r.tr, ct |-> ct] ELSE neg
   /\ act' = [n |-> "Start"]
-  /\ UNCHANGED <<pool, qcache, apq>>
+  /\ UNCHANGED <<pool, qcache, apq, cfg0, heap, bfree>>
 
 (* pool.Get() + params.Headers = r.Header + params.ReadTime = ... *)
 Take(i) ==
@@ -152,7 +243,7 @@ Take(i) ==
                 /\ fl' = [fl EXCEPT ![i].pc = "decode", ![i].obj = stamp(pool[j]), ![i].pooled = TRUE]
                 /\ pool' = [k \in 1..(Len(pool) - 1) |-> IF k < j THEN pool[k] ELSE pool[k + 1]]
   /\ act' = [n |-> "Take"]
-  /\ UNCHANGED <<qcache, apq>>
+  /\ UNCHANGED <<qcache, apq, cfg, cfg0, neg, heap, bfree>>
 
 Decode(i) ==
   /\ fl[i].pc = "decode"
@@ -160,10 +251,10 @@ Decode(i) ==
          d == IF r.tr = "POST" THEN DecodeInto(fl[i].obj, r) ELSE Own(r)
          o == IF ResetEarly /\ r.tr = "POST" THEN ResetObj(d) ELSE d
      IN IF r.vars = "bad"
-        THEN fl' = [fl EXCEPT ![i].pc = "finish", ![i].obj = o, ![i].resp = ErrResp("decodeErr")]
+        THEN fl' = [fl EXCEPT ![i].pc = "write", ![i].obj = o, ![i].resp = ErrResp("decodeErr")]
         ELSE fl' = [fl EXCEPT ![i].pc = "mutate", ![i].obj = o, ![i].seen = Params(o)]
   /\ act' = [n |-> "Decode"]
-  /\ UNCHANGED <<pool, qcache, apq>>
+  /\ UNCHANGED <<pool, qcache, apq, cfg, cfg0, neg, heap, bfree>>
 
 (* AutomaticPersistedQuery.MutateOperationParameters *)
 Mutate(i) ==
@@ -175,44 +266,65 @@ Mutate(i) ==
           [] h # "" /\ o.q = "" /\ h \in apq ->
                fl' = [fl EXCEPT ![i].pc = "parse", ![i].obj.q = h, ![i].apqhit = h] /\ apq' = apq
           [] h # "" /\ o.q = "" /\ h \notin apq ->
-               fl' = [fl EXCEPT ![i].pc = "finish", ![i].resp = ErrResp("apqNotFound")] /\ apq' = apq
+               fl' = [fl EXCEPT ![i].pc = "write", ![i].resp = ErrResp("apqNotFound")] /\ apq' = apq
           [] h # "" /\ o.q # "" /\ o.q # h ->
-               fl' = [fl EXCEPT ![i].pc = "finish", ![i].resp = ErrResp("apqMismatch")] /\ apq' = apq
+               fl' = [fl EXCEPT ![i].pc = "write", ![i].resp = ErrResp("apqMismatch")] /\ apq' = apq
           [] OTHER ->
                fl' = [fl EXCEPT ![i].pc = "parse"] /\ apq' = apq \cup {h}
   /\ act' = [n |-> "Mutate"]
-  /\ UNCHANGED <<pool, qcache>>
+  /\ UNCHANGED <<pool, qcache, cfg, cfg0, neg, heap, bfree>>
 
 (* parseQuery: cache lookup *)
 Parse(i) ==
   /\ fl[i].pc = "parse"
   /\ LET o == fl[i].obj
          cached == {e \in qcache : e[1] = Key(o.q)}
-     IN IF o.q = "" THEN fl' = [fl EXCEPT ![i].pc = "finish", ![i].resp = ErrResp("noop")]
+     IN IF o.q = "" THEN fl' = [fl EXCEPT ![i].pc = "write", ![i].resp = ErrResp("noop")]
         ELSE IF cached # {}
-        THEN fl' = [fl EXCEPT ![i].pc = "respond", ![i].hit = TRUE,
+        THEN fl' = [fl EXCEPT ![i].pc = "execute", ![i].hit = TRUE,
                               ![i].resp = ExecResp((CHOOSE e \in cached : TRUE)[2], Params(o))]
-        ELSE fl' = [fl EXCEPT ![i].pc = IF Valid(o.q) THEN "addcache" ELSE "respond",
+        ELSE fl' = [fl EXCEPT ![i].pc = IF Valid(o.q) THEN "addcache" ELSE "execute",
                               ![i].resp = ExecResp(o.q, Params(o))]
   /\ act' = [n |-> "Parse"]
-  /\ UNCHANGED <<pool, qcache, apq>>
+  /\ UNCHANGED <<pool, qcache, apq, cfg, cfg0, neg, heap, bfree>>
 
 AddCache(i) ==
   /\ fl[i].pc = "addcache"
   /\ LET d == fl[i].resp.doc
      IN qcache' = {e \in qcache : e[1] # Key(d)} \cup {<<Key(d), d>>}
-  /\ fl' = [fl EXCEPT ![i].pc = "respond"]
+  /\ fl' = [fl EXCEPT ![i].pc = "execute"]
   /\ act' = [n |-> "AddCache"]
-  /\ UNCHANGED <<pool, apq>>
+  /\ UNCHANGED <<pool, apq, cfg, cfg0, neg, heap, bfree>>
 
 (* CreateOperationContext copies OperationName / Extensions / Headers,
-   VariableValues reads Variables: the fields as they are NOW *)
-Respond(i) ==
-  /\ fl[i].pc = "respond"
-  /\ fl' = [fl EXCEPT ![i].pc = "finish",
-                      ![i].resp = ExecResp(fl[i].resp.doc, Params(fl[i].obj))]
-  /\ act' = [n |-> "Respond"]
-  /\ UNCHANGED <<pool, qcache, apq>>
+   VariableValues reads Variables: the fields as they are NOW.  The response
+   function of the executable schema marshals the result: into a buffer of
+   its own (buf = 0: the bytes are private to the request) or - deviation
+   BufPool - into a buffer b taken from a shared pool (any pooled one, or a
+   new one) that is handed back (deferred Put) as Exec returns while the
+   response still aliases it. *)
+Execute(i) ==
+  /\ fl[i].pc = "execute"
+  /\ LET body == ExecResp(fl[i].resp.doc, Params(fl[i].obj))
+     IN IF ~BufPool
+        THEN /\ fl' = [fl EXCEPT ![i].pc = "write", ![i].resp = body]
+             /\ UNCHANGED <<heap, bfree>>
+        ELSE \E b \in bfree \cup (IF Len(heap) < Slots THEN {Len(heap) + 1} ELSE {}) :
+               /\ heap' = IF b <= Len(heap) THEN [heap EXCEPT ![b] = body] ELSE Append(heap, body)
+               /\ bfree' = bfree \cup {b}
+               /\ fl' = [fl EXCEPT ![i].pc = "write", ![i].resp = body, ![i].buf = b]
+  /\ act' = [n |-> "Execute", i |-> i]
+  /\ UNCHANGED <<pool, qcache, apq, cfg, cfg0, neg>>
+
+(* writeJson: the transport serialises what the response points to NOW;
+   the status line and the headers were decided by this request before *)
+Write(i) ==
+  /\ fl[i].pc = "write"
+  /\ LET body == IF fl[i].buf = 0 THEN fl[i].resp ELSE heap[fl[i].buf]
+     IN fl' = [fl EXCEPT ![i].pc = "finish",
+                         ![i].wire = Wire(body, Status(fl[i].r, fl[i].resp.out, fl[i].ct), fl[i].hs)]
+  /\ act' = [n |-> "Write", i |-> i]
+  /\ UNCHANGED <<pool, qcache, apq, cfg, cfg0, neg, heap, bfree>>
 
 (* the deferred func of POST.Do; the request is over *)
 Finish(i) ==
@@ -223,13 +335,13 @@ Finish(i) ==
         /\ act' = [n |-> "Finish", r |-> r, s |-> fl[i].s0, pooled |-> fl[i].pooled,
                    apqhit |-> fl[i].apqhit, hit |-> fl[i].hit,
                    own |-> [q |-> Own(r).q, opn |-> Own(r).opn, vars |-> Own(r).vars, ext |-> Own(r).ext],
-                   out |-> fl[i].resp.out]
-  /\ fl' = [fl EXCEPT ![i] = Idle]
-  /\ UNCHANGED <<qcache, apq>>
+                   out |-> fl[i].resp.out, ct |-> fl[i].ct, st |-> fl[i].wire.st]
+  /\ fl' = [fl EXCEPT ![i] = IF Once THEN [pc |-> "done"] ELSE Idle]
+  /\ UNCHANGED <<qcache, apq, cfg, cfg0, neg, heap, bfree>>
 
 Next == \E i \in 1..Slots :
           \/ \E r \in Requests : Start(i, r)
-          \/ Take(i) \/ Decode(i) \/ Mutate(i) \/ Parse(i) \/ AddCache(i) \/ Respond(i) \/ Finish(i)
+          \/ Take(i) \/ Decode(i) \/ Mutate(i) \/ Parse(i) \/ AddCache(i) \/ Execute(i) \/ Write(i) \/ Finish(i)
 
 Spec == Init /\ [][Next]_vars
 
@@ -241,26 +353,33 @@ After(i, pcs) == fl[i].pc \in pcs
 (* the parameters handed to CreateOperationContext are the request's own *)
 OwnParams ==
   \A i \in 1..Slots :
-    After(i, {"mutate", "parse", "addcache", "respond"}) => fl[i].seen = Params(Own(fl[i].r))
+    After(i, {"mutate", "parse", "addcache", "execute"}) => fl[i].seen = Params(Own(fl[i].r))
 
-(* Response(history . r) = Response(r alone), the only permitted memory
-   being a persisted-query registration *)
+(* Response(history . r) = Response(r alone): body, status and headers, the
+   only permitted memory being a persisted-query registration *)
 Isolation ==
   \A i \in 1..Slots :
     fl[i].pc = "finish" =>
       LET r == fl[i].r
-      IN fl[i].resp = AloneResp(r, IF fl[i].apqhit # "" THEN fl[i].apqhit ELSE Own(r).q)
+      IN fl[i].wire = AloneWire(r, IF fl[i].apqhit # "" THEN fl[i].apqhit ELSE Own(r).q, cfg0)
+
+(* the bytes written are the bytes computed by the request's own execution *)
+WriteOwn ==
+  \A i \in 1..Slots : fl[i].pc = "finish" => fl[i].wire.body = fl[i].resp
+
+(* no request writes the configuration the transports were constructed with *)
+ConfigImmutable == cfg = [t \in ConfTr |-> CfgMap(cfg0)]
 
 (* the APQ exception is used only by hash-only lookups *)
 ApqOnlyHashOnly ==
   \A i \in 1..Slots :
-    fl[i].pc # "idle" /\ fl[i].apqhit # "" =>
+    fl[i].pc \notin {"idle", "done"} /\ fl[i].apqhit # "" =>
       fl[i].r.q = "-" /\ ApqText(MapVal(fl[i].r.ext)) = fl[i].apqhit
 
 (* a cached document gives the same result as an uncached one *)
 CacheTransparent ==
   \A i \in 1..Slots :
-    After(i, {"respond", "finish"}) /\ fl[i].resp.out \in {"exec", "invalid"} => fl[i].resp.doc = fl[i].obj.q
+    After(i, {"execute", "write", "finish"}) /\ fl[i].resp.out \in {"exec", "invalid"} => fl[i].resp.doc = fl[i].obj.q
 
 (* what is parked in the pool holds nothing of a previous request *)
 PoolClean == \A j \in 1..Len(pool) : Params(pool[j]) = Params(Zero)
@@ -269,15 +388,30 @@ TypeOK ==
   /\ Len(pool) <= PoolMax
   /\ \A e \in qcache : Valid(e[2])
   /\ apq \subseteq {"Q1", "Q2"}
+  /\ cfg0 \in Configs
+  /\ (~BufPool) => (heap = <<>> /\ bfree = {})
 
 -----------------------------------------------------------------------------
 (* Request-level labelled edges for the replay: source = shared state when   *)
-(* the request started, target = shared state when it finished.  Meaningful  *)
-(* with Slots = 1.                                                           *)
+(* the request started (including the configuration the server was built     *)
+(* with and - TrackNeg - the media type negotiated last), target = shared    *)
+(* state when it finished.  Meaningful with Slots = 1.                       *)
 EmitEdge ==
   act'.n = "Finish" =>
     PrintT(ToJson([s |-> act'.s,
                    a |-> [r |-> act'.r, pooled |-> act'.pooled, apqhit |-> act'.apqhit, hit |-> act'.hit,
-                          own |-> act'.own, out |-> act'.out],
-                   t |-> [pool |-> pool', qc |-> qcache', apq |-> apq']]))
+                          own |-> act'.own, out |-> act'.out, ct |-> act'.ct, st |-> act'.st],
+                   t |-> SharedNext]))
+
+(* Schedule graph for the concurrent replay (Once = TRUE): per slot whether  *)
+(* its request is not yet executed, HELD (executed, not written) or written; *)
+(* one edge per Execute / Write step.  Its maximal paths are the orders in   *)
+(* which the harness lets the real requests execute and be written.          *)
+PhaseOf(f) == IF f.pc \in {"finish", "done"} THEN "written"
+              ELSE IF f.pc = "write" THEN "held" ELSE "pre"
+EmitSched ==
+  act'.n \in {"Execute", "Write"} =>
+    PrintT(ToJson([s |-> [i \in 1..Slots |-> PhaseOf(fl[i])],
+                   a |-> [ev |-> act'.n, slot |-> act'.i],
+                   t |-> [i \in 1..Slots |-> PhaseOf(fl'[i])]]))
 =============================================================================
